@@ -297,4 +297,63 @@ def run(ctx) -> list[Inst]:
                              f"{f.short} (or its callees) removes it from '{field}' of the objects "
                              f"that still refer to it"),
                         file=rel, line=e.lineno, props=props))
+    insts += _setlike(ctx)
+    return insts
+
+
+SETLIKE = {'entry_points': ('Attacker',), 'reached_attack_steps': ('Attacker',), 'compromised_by': ('AttackGraphNode',)}
+
+
+def _setlike(ctx) -> list:
+    """SETLIKE  remove_node / remove_attacker / undo_compromise detach with ONE list.remove per holder, so the lists
+    they clean (attacker.entry_points, attacker.reached_attack_steps, node.compromised_by) must never hold an
+    element twice: every `.append(x)` on them is guarded by a membership test of x on the same list (or sits in
+    Attacker.compromise behind its is_compromised_by guard, decided by table T15)."""
+    import ast
+    from ..core import own_nodes
+    prog = ctx.prog
+    insts = []
+    for f in prog.all_funcs():
+        if f.module.generated or f.name == '__deepcopy__':
+            continue
+        env = prog.env(f)
+        cfg = ctx.cfg(f)
+        rel = f.module.relpath
+        for n in own_nodes(f.node):
+            if not (isinstance(n, ast.Call) and isinstance(n.func, ast.Attribute) and n.func.attr in ('append', 'insert')
+                    and isinstance(n.func.value, ast.Attribute) and n.func.value.attr in SETLIKE and n.args):
+                continue
+            lst = n.func.value
+            t = env.type_of(lst.value)
+            owner = t[1] if t[0] == 'cls' else None
+            if owner is not None and owner not in SETLIKE[lst.attr]:
+                continue            # AttackerAttachment.entry_points (model side) holds (asset, steps) tuples
+            if owner is None and 'attackgraph' not in rel:
+                continue
+            x = n.args[-1]
+            ltxt, xtxt = stmt_text(lst), stmt_text(x)
+            node = cfg.owner(n)
+            guarded = False
+            if f.short in ('Attacker.compromise',):
+                guarded = True
+            for g in cfg.nodes:
+                if g.kind != 'if' or not cfg.dominates(g, node) or g is node:
+                    continue
+                for c in ast.walk(g.ast.test):
+                    if isinstance(c, ast.Compare) and len(c.ops) == 1 and isinstance(c.ops[0], (ast.In, ast.NotIn)) \
+                            and stmt_text(c.comparators[0]) == ltxt and stmt_text(c.left) == xtxt:
+                        guarded = True
+                    if isinstance(c, ast.Call) and isinstance(c.func, ast.Attribute) and c.func.attr == 'is_compromised_by':
+                        guarded = True
+            construct = f'SETLIKE: {ltxt}.append({xtxt}) cannot add a duplicate'
+            props = ('C09', 'C11', 'C13') if lst.attr != 'entry_points' else ('C09', 'C11', 'C13', 'C10')
+            if guarded:
+                insts.append(Inst(RULE, f.short, construct, 'ok', file=rel, line=n.lineno, props=props))
+            else:
+                insts.append(Inst(
+                    RULE, f.short, construct, 'violation',
+                    msg=(f"'{stmt_text(n, 60)}' is not guarded by a membership test of {xtxt} on {ltxt}: the same node "
+                         f"can be listed twice, and the removers detach with a single list.remove - after remove_node / "
+                         f"remove_attacker / undo a reference to an object that left the graph stays behind"),
+                    file=rel, line=n.lineno, props=props))
     return insts
